@@ -320,7 +320,7 @@ class Ctx:
 
     # -- Coq ----------------------------------------------------------------
     def build_property(self, dirs=None, extra_targets=()):
-        """Rebuild coq/<pid> (and what it needs), re-check Properties.v, record obligations.
+        """Rebuild coq/<pid> (and what it needs), re-check every *Properties.v, record obligations.
 
         Returns True when everything compiled.
         """
@@ -331,41 +331,44 @@ class Ctx:
             self.tie_broken("forbidden-vernacular", json.dumps(bad[:10]))
             return False
         targets = []
+        propfiles = []
         for d in dirs:
-            targets += coq_dir_targets(d)
+            for t in coq_dir_targets(d):
+                if t.endswith("Properties.vo"):
+                    propfiles.append(t)
+                else:
+                    targets.append(t)
         targets += list(extra_targets)
         # Always re-run the property files so Print Assumptions output is captured
-        for d in dirs:
-            for f in ("Properties",):
-                for ext in (".vo", ".glob", ".vos", ".vok"):
-                    try:
-                        os.unlink(os.path.join(COQ, d, f + ext))
-                    except OSError:
-                        pass
-        cmd = "cd %s && make -j8 %s" % (COQ, " ".join(targets))
-        self.checker_cmds.append(cmd)
-        ok, out = coq_make(targets)
-        self.extra.setdefault("build_log_tail", out[-1500:])
-        all_ok = ok
-        for d in dirs:
-            rel = d + "/Properties.v"
-            if not os.path.exists(os.path.join(COQ, rel)):
-                continue
+        for t in propfiles:
+            for ext in (".vo", ".glob", ".vos", ".vok"):
+                try:
+                    os.unlink(os.path.join(COQ, t[:-3] + ext))
+                except OSError:
+                    pass
+        self.checker_cmds.append("cd %s && make -j8 %s" % (COQ, " ".join(targets + propfiles)))
+        all_ok = True
+        log = ""
+        if targets:
+            ok, out = coq_make(targets)
+            log += out
+            if not ok:
+                all_ok = False
+                self.tie_broken("coq-build", out)
+        for t in propfiles:
+            rel = t[:-3] + ".v"
             names = theorems_in(rel)
-            built = os.path.exists(os.path.join(COQ, d, "Properties.vo"))
+            ok, out = coq_make([t], jobs=4)
+            log += out
+            built = ok and os.path.exists(os.path.join(COQ, t))
             ass = parse_assumptions(out) if built else []
-            # Print Assumptions output is in file order; when several Properties files
-            # are built in one make the order can interleave, so map by count only
-            # when a single dir is involved.
             for i, n in enumerate(names):
-                a = ass[i] if (len(dirs) == 1 and i < len(ass)) else ("see build log" if built else "NOT BUILT")
-                self.obligations.append((d + "." + n, built, a))
+                a = ass[i] if i < len(ass) else ("(no Print Assumptions)" if built else "NOT BUILT")
+                self.obligations.append((rel[:-2].replace("/", ".") + "." + n, built, a))
             if not built:
                 all_ok = False
                 self.tie_broken("coq-build:" + rel, out)
-        if not ok and all_ok:
-            all_ok = False
-            self.tie_broken("coq-build", out)
+        self.extra.setdefault("build_log_tail", log[-1500:])
         return all_ok
 
     def coqchk(self, dirs=None):
@@ -492,3 +495,51 @@ def impl_python(script, args=(), timeout=600, inp=None):
     env = {"PYTHONPATH": REPO + ":" + os.path.join(VERIF, "harness"), "PYTHONHASHSEED": "0",
            "PYTHONWARNINGS": "ignore", "PYATV_VERIF": "1"}
     return sh([PY, script] + list(args), timeout=timeout, env=env, inp=inp)
+
+
+class CoqCases:
+    """Collect correspondence cases and evaluate them inside Coq (vm_compute).
+
+    add(group, term, meta): `group` names a check function `check : T -> bool` registered with
+    group(); `term` is the Coq text of one case of type T; meta is returned for mismatches.
+    """
+
+    def __init__(self, ctx, imports, per_file=400):
+        self.ctx = ctx
+        self.imports = imports
+        self.per = per_file
+        self.groups = {}
+
+    def group(self, name, check_fn, typ):
+        self.groups[name] = {"fn": check_fn, "typ": typ, "cases": []}
+
+    def add(self, name, term, meta):
+        self.groups[name]["cases"].append((term, meta))
+
+    def run(self, timeout=900):
+        items = []
+        index = {}
+        for g, d in self.groups.items():
+            cs = d["cases"]
+            for i in range(0, len(cs), self.per):
+                chunk = cs[i:i + self.per]
+                fname = "cases_%s_%03d" % (g, i // self.per)
+                txt = ("From Coq Require Import List NArith ZArith Bool. Import ListNotations.\n%s\n"
+                       "Definition cases : list (%s) := [\n%s\n].\n"
+                       "Eval vm_compute in (bad_indices %s cases).\n"
+                       % (self.imports, d["typ"], ";\n".join(t for t, _ in chunk), d["fn"]))
+                items.append((fname, txt))
+                index[fname] = (g, i)
+        res = coq_run_many(items, self.ctx.pid, timeout=timeout)
+        mismatches = []
+        for fname, (rc, out) in sorted(res.items()):
+            g, base = index[fname]
+            bad = parse_eval_nat_list(out) if rc == 0 else None
+            if bad is None:
+                self.ctx.tie_broken("correspondence:%s:%s" % (g, fname), out)
+                continue
+            for b in bad:
+                mismatches.append((g, self.groups[g]["cases"][base + b][1]))
+        n = sum(len(d["cases"]) for d in self.groups.values())
+        self.ctx.traces += n
+        return mismatches
